@@ -322,6 +322,12 @@ impl Task {
 
             if self.id == TASK_ROOT_TID {
                 self.proc().set_state(state.clone());
+                // the process fails with its root task: known before the row is written
+                if state.is_error() {
+                    if let Some(err) = self.err() {
+                        self.proc().set_pure_err(&err);
+                    }
+                }
             }
         } else if state.is_created() {
             self.set_start_time(utils::time::time_millis());
@@ -643,6 +649,10 @@ impl Task {
                             || iter.state().is_abort()
                     }) {
                         self.set_state(TaskState::Skipped);
+                        // decided here, outside any task event: store it all the same
+                        if let Some(task) = self.proc.task(&self.id) {
+                            let _ = self.runtime.cache().upsert(&task);
+                        }
                     }
                 }
 
